@@ -360,6 +360,8 @@ pub struct Acc {
     pub hook: HookStats,
     pub distinct: u64,
     pub distinct_sets: BTreeMap<String, BTreeSet<String>>,
+    /// maxima (merged by max, unlike counters)
+    pub maxima: BTreeMap<String, u64>,
 }
 impl Acc {
     pub fn count(&mut self, k: &str) {
@@ -367,6 +369,10 @@ impl Acc {
     }
     pub fn add(&mut self, k: &str, n: u64) {
         *self.counters.entry(k.to_string()).or_default() += n;
+    }
+    pub fn max(&mut self, k: &str, v: u64) {
+        let e = self.maxima.entry(k.to_string()).or_default();
+        *e = (*e).max(v);
     }
     pub fn get(&self, k: &str) -> u64 {
         self.counters.get(k).copied().unwrap_or(0)
@@ -423,6 +429,9 @@ impl Acc {
         self.inconclusive += o.inconclusive;
         self.hook.add(&o.hook);
         self.distinct += o.distinct;
+        for (k, v) in o.maxima {
+            self.max(&k, v);
+        }
         for (k, s) in o.distinct_sets {
             self.distinct_sets.entry(k).or_default().extend(s);
         }
@@ -434,6 +443,8 @@ pub fn par_run<T: Sync>(items: &[T], shadow: bool, step_cap: Option<u64>, f: imp
     let next = AtomicUsize::new(0);
     let total = Mutex::new(Acc::default());
     let chunk = (items.len() / (NTHREADS * 64)).clamp(1, 256);
+    let t0 = Instant::now();
+    let budget_s: u64 = std::env::var("VERIF_TIME_BUDGET").ok().and_then(|s| s.parse().ok()).unwrap_or(1500);
     std::thread::scope(|sc| {
         for _ in 0..NTHREADS {
             std::thread::Builder::new()
@@ -446,6 +457,17 @@ pub fn par_run<T: Sync>(items: &[T], shadow: bool, step_cap: Option<u64>, f: imp
                         let start = next.fetch_add(chunk, Ordering::Relaxed);
                         if start >= items.len() {
                             break;
+                        }
+                        // a tree that violates wholesale (or makes the VM crawl into its step cap)
+                        // must not turn the check into an hours-long run: stop exploring once the
+                        // verdict is beyond doubt or the wall-clock budget is used up
+                        if acc.n_violations >= 200 {
+                            acc.count("work-items-skipped-after-200-violations-in-one-worker");
+                            continue;
+                        }
+                        if t0.elapsed().as_secs() > budget_s {
+                            acc.count("work-items-skipped:time-budget-exhausted");
+                            continue;
                         }
                         for i in start..(start + chunk).min(items.len()) {
                             f(i, &items[i], &mut acc);
@@ -494,9 +516,14 @@ pub fn verif_dir() -> String {
     std::env::var("VERIF_DIR").unwrap_or_else(|_| "/verif".to_string())
 }
 
+/// where evidence/ and replays/ go (VERIF_OUT redirects them, e.g. for runs against mutants)
+pub fn out_dir() -> String {
+    std::env::var("VERIF_OUT").unwrap_or_else(|_| verif_dir())
+}
+
 /// Write evidence, replays; print verdict lines; return the process exit code.
 pub fn finish(ctx: &Ctx, mut out: Outcome) -> i32 {
-    let dir = verif_dir();
+    let dir = out_dir();
     let wall = ctx.start.elapsed().as_secs_f64();
     let mut code = 0;
     // known findings: print one line per finding that reproduced
@@ -526,6 +553,9 @@ pub fn finish(ctx: &Ctx, mut out: Outcome) -> i32 {
     if out.acc.n_violations > out.acc.violations.len() as u64 {
         println!("  ({} violating cases in total; first {} written)", out.acc.n_violations, out.acc.violations.len());
     }
+    if out.acc.get("work-items-skipped:time-budget-exhausted") > 0 {
+        out.inconclusive_reasons.push("the wall-clock budget (VERIF_TIME_BUDGET) ran out before the space was explored".into());
+    }
     if code == 0 && !out.inconclusive_reasons.is_empty() {
         for r in &out.inconclusive_reasons {
             println!("INCONCLUSIVE property={} {}", ctx.prop, r);
@@ -542,6 +572,7 @@ pub fn finish(ctx: &Ctx, mut out: Outcome) -> i32 {
     cov.insert("samples".into(), Value::Array(out.acc.samples.clone()));
     cov.insert("exhaustive".into(), json!(out.exhaustive));
     cov.insert("counters".into(), json!(out.acc.counters));
+    cov.insert("maxima".into(), json!(out.acc.maxima));
     cov.insert("monitors".into(), out.acc.hook.json());
     cov.insert("inconclusive".into(), json!(out.acc.inconclusive));
     cov.insert("inconclusive_reasons".into(), json!(out.inconclusive_reasons));
